@@ -103,6 +103,16 @@ def gen_sched(g):
         open_doc(paths[0])
     nedits = rng.randint(1, 30)
     ver = 1
+    used_texts = []
+    faults = []
+
+    def reuse(ch):
+        """editors re-send identical texts all the time (undo/redo, paste): reuse earlier ones"""
+        if used_texts and rng.random() < 0.25:
+            ch = dict(ch, text=rng.choice(used_texts))
+        used_texts.append(ch.get("text", ""))
+        return ch
+
     for _ in range(nedits):
         open_now = [p for p in paths if docs[p] is not None]
         if not open_now:
@@ -116,7 +126,7 @@ def gen_sched(g):
                 nch = 1 if rng.random() < 0.8 else rng.randint(2, 4)
                 changes = []
                 for _c in range(nch):
-                    ch = gen.rand_change(rng, docs[p])
+                    ch = reuse(gen.rand_change(rng, docs[p], 0.12))
                     docs[p] = model.apply_change(docs[p], ch)
                     changes.append(ch)
             else:
@@ -135,6 +145,11 @@ def gen_sched(g):
             disk[p] = text
             ops.append(gen.env_write(p, text))
             ops.append(gen.did_save(p))
+            if rng.random() < 0.2:
+                # the read behind this didSave fails (file momentarily unreadable/absent): the
+                # server cannot refresh from disk and must simply keep the text it holds
+                faults.append({"op": len(ops) - 1, "seam": "open", "nth": 0,
+                               "kind": rng.choice(["enoent", "eio", "eacces", "eio-read"])})
             docs[p] = model.lines_from_disk(text.encode("utf-8"))
             ops.append({"k": "obs", "what": "buffer"})
         elif r < 0.95:
@@ -147,7 +162,7 @@ def gen_sched(g):
     ops += [gen.req(rid(), "shutdown"), gen.note("exit")]
     chunks = rng.choice([None, None, [1], [rng.choice([3, 17, 200, 4096]) for _ in range(3)]])
     return {"argv": (["--incremental_sync"] if incremental else []) + ["--disable_autoupdate"],
-            "tree": tree, "ops": ops, "chunks": chunks,
+            "tree": tree, "ops": ops, "chunks": chunks, "faults": faults,
             "pipeline": False, "sync_kind": 2 if incremental else 1, "strict_edits": True,
             "n_edits": nedits}
 
